@@ -3,6 +3,9 @@ import torch
 from emu_base import _verif
 
 DEFAULT_MAX_KRYLOV_DIM: int = 100
+# a convergence that the cheap estimate announced is kept if the confirmed estimate is within
+# this factor of the tolerance (the result is documented to be accurate to 10x the tolerance)
+CONFIRMED_ESTIMATE_SLACK: float = 3.0
 
 
 class KrylovExpResult:
@@ -47,8 +50,10 @@ def krylov_exp_impl(
     lanczos_vectors = [v]
     T = torch.zeros(max_krylov_dim + 2, max_krylov_dim + 2, dtype=v.dtype)
 
+    w_next = None
     for j in range(max_krylov_dim):
-        w = op(lanczos_vectors[-1])
+        w = op(lanczos_vectors[-1]) if w_next is None else w_next
+        w_next = None
 
         n = w.norm()
 
@@ -63,7 +68,11 @@ def krylov_exp_impl(
 
         if n2 < norm_tolerance:
             # Happy breakdown
-            expd = torch.linalg.matrix_exp(T[: j + 1, : j + 1])
+            # Exponentiate the extended matrix as in the converged case: its leading block is
+            # exp(T[:j+1, :j+1]), and torch.linalg.matrix_exp is only accurate to ~1e-10 for
+            # matrices with 1-norm between 3e-4 and 5e-2.
+            T[j + 2, j + 1] = 1
+            expd = torch.linalg.matrix_exp(T[: j + 3, : j + 3])
             result = initial_norm * sum(
                 a * b for a, b in zip(expd[:, 0], lanczos_vectors)
             )
@@ -82,7 +91,16 @@ def krylov_exp_impl(
         err1 = abs(expd[j + 1, 0])
         err2 = abs(expd[j + 2, 0] * n)
 
-        err = err1 if err1 < err2 else (err1 * err2 / (err1 - err2))
+        err = err2 if err1 < err2 else (err1 * err2 / (err1 - err2))
+
+        if err < exp_tolerance:
+            # err2 needs |op(q_{j+1})|; n is only |op(q_j)|, which can be orders of magnitude
+            # smaller when the start vector is nearly annihilated by op. Confirm with the true
+            # norm (the product is reused by the next iteration if the estimate was optimistic).
+            w_next = op(lanczos_vectors[-1])
+            err2 = abs(expd[j + 2, 0] * w_next.norm())
+            err = err2 if err1 < err2 else (err1 * err2 / (err1 - err2))
+            err = err / CONFIRMED_ESTIMATE_SLACK
 
         if err < exp_tolerance:
             # Converged
